@@ -14,6 +14,8 @@
 (*   cfgAfter  the VM's configuration after the run                        *)
 (*   pred/obs  for replayed behaviours of Gate: what the specification     *)
 (*             says each item becomes / what the listing shows             *)
+(*   lazyPred/lazyObs  families the specification predicts to be compiled  *)
+(*             in lazily compiled text / families executed in nested VMs   *)
 (*   identLike/claim/identLoaded  identifier-shaped spellings              *)
 (***************************************************************************)
 EXTENDS Naturals, Sequences, FiniteSets, TLC, Json, IOUtils
@@ -50,6 +52,8 @@ CheckGate(e) ==
   \cup Tag(e.cfg.noBit => "bit" \notin listing, "bitwise-compiled")
   \* behaviours of Gate replayed: each item became what the specification says
   \cup Tag(e.hasPred => e.obs = e.pred, "prediction")
+  \* Gate!LazyGated: lazily compiled text (computed values created by the host, RunExpr) is gated by the VM's configuration alone
+  \cup Tag(e.hasLazy => ToSet(e.lazyObs) = ToSet(e.lazyPred), "prediction-lazy")
   \* a family's letters are ordinary identifiers while the family is off
   \cup Tag((e.identLike /\ e.claim # "always"
             /\ (e.claim \in Fam => ~Flag(e.cfg, e.claim))
